@@ -34,6 +34,8 @@ var specs = []Spec{
 	{"x/perpetual/keeper", "Keeper.CalcMinCollateral", "calcMinCollateral", false, false},
 	{"x/stablestake/keeper", "Keeper.GetRedemptionRate", "getRedemptionRate", false, false},
 	{"x/stablestake/keeper", "Keeper.Borrow", "borrowGuards", false, true},
+	{"x/perpetual/keeper", "Keeper.CheckAndCloseAtStopLoss", "perpStopLossGuards", false, true},
+	{"x/perpetual/keeper", "Keeper.CheckAndCloseAtTakeProfit", "perpTakeProfitGuards", false, true},
 	{"x/masterchef/keeper", "Keeper.CollectGasFees", "collectGasFees", true, false},
 	{"x/masterchef/keeper", "Keeper.CollectPerpRevenue", "collectPerpRevenue", true, false},
 	{"x/stablestake/keeper", "Keeper.InterestRateComputation", "interestRateComputation", false, false},
